@@ -3,8 +3,16 @@
 package protogen
 
 import (
+	"sort"
+
+	"github.com/tableauio/tableau/internal/protogen/parseroptions"
+	"github.com/tableauio/tableau/internal/types"
+	"github.com/tableauio/tableau/internal/x/xproto"
 	"github.com/tableauio/tableau/options"
 	"github.com/tableauio/tableau/proto/tableaupb"
+	"github.com/tableauio/tableau/proto/tableaupb/internalpb"
+	"google.golang.org/protobuf/proto"
+	"google.golang.org/protobuf/reflect/protoreflect"
 )
 
 // VerifRecordedBookOptions returns the workbook options protogen records into
@@ -22,4 +30,79 @@ func VerifRecordedBookOptions(header *options.HeaderOption, bookOpts *tableaupb.
 // VerifPrepareOutdir is prepareOutdir.
 func VerifPrepareOutdir(outdir string, importFiles []string, delExisted bool) error {
 	return prepareOutdir(outdir, importFiles, delExisted)
+}
+
+// VerifTypeInfo is a predefined type known to the generator.
+type VerifTypeInfo struct {
+	FullName             string
+	Kind                 int
+	FirstFieldOptionName string
+}
+
+// VerifParseHeader runs the header parser of a default-mode worksheet on the
+// given name and type rows (header lines 0), with the given predefined types,
+// and returns the parsed fields.
+func VerifParseHeader(protoPackage string, infos []VerifTypeInfo, nameRow, typeRow []string, nested bool) (fields []*internalpb.Field, cur int, err error) {
+	gen := NewGeneratorWithOptions(protoPackage, ".", ".", options.NewDefault())
+	for _, info := range infos {
+		gen.typeInfos.Put(&xproto.TypeInfo{
+			FullName:             protoreflect.FullName(info.FullName),
+			ParentFilename:       "predefined.proto",
+			Kind:                 types.Kind(info.Kind),
+			FirstFieldOptionName: info.FirstFieldOptionName,
+		})
+	}
+	bp := newTableParser("Book", "", "Book.xlsx", gen)
+	header := &tableHeader{
+		Header:      &parseroptions.Header{NameRow: 1, TypeRow: 2, NoteRow: 3, DataRow: 4},
+		nameRowData: nameRow,
+		typeRowData: typeRow,
+	}
+	var parsed bool
+	for cursor := 0; cursor < len(header.nameRowData); cursor++ {
+		field := &internalpb.Field{}
+		cursor, parsed, err = bp.parseField(field, header, cursor, "", parseroptions.Nested(nested))
+		if err != nil {
+			return nil, cursor, err
+		}
+		if parsed {
+			fields = append(fields, field)
+		}
+	}
+	return fields, 0, nil
+}
+
+// VerifExportMessager renders the message of a default-mode worksheet as the
+// book exporter does (fields are cloned: the exporter mutates options).
+func VerifExportMessager(protoPackage string, infos []VerifTypeInfo, ws *internalpb.Worksheet) (string, []string, error) {
+	gen := NewGeneratorWithOptions(protoPackage, ".", ".", options.NewDefault())
+	for _, info := range infos {
+		gen.typeInfos.Put(&xproto.TypeInfo{
+			FullName:             protoreflect.FullName(info.FullName),
+			ParentFilename:       "predefined.proto",
+			Kind:                 types.Kind(info.Kind),
+			FirstFieldOptionName: info.FirstFieldOptionName,
+		})
+	}
+	wb := &internalpb.Workbook{Name: "book", Options: &tableaupb.WorkbookOptions{Name: "Book.xlsx"}}
+	be := newBookExporter(protoPackage, nil, ".", "", wb, gen)
+	g := NewGeneratedBuf()
+	se := &sheetExporter{
+		be:             be,
+		ws:             proto.Clone(ws).(*internalpb.Worksheet),
+		g:              g,
+		isLastSheet:    true,
+		typeInfos:      gen.typeInfos,
+		nestedMessages: make(map[string]*internalpb.Field),
+		Imports:        make(map[string]bool),
+	}
+	if err := se.export(); err != nil {
+		return "", nil, err
+	}
+	var imports []string
+	for k := range se.Imports {
+		imports = append(imports, k)
+	}
+	sort.Strings(imports)
+	return g.String(), imports, nil
 }
